@@ -1,7 +1,7 @@
 CHECKS = [
     entry("C29", "configx",
           technique="property-based testing (rapid): precedence/expansion reference model + metamorphic 'literal twin' differential through the real NewCmdEnvOptions/NewConfig startup path",
-          quick=dict(checks=2500, budget_s=45),
+          quick=dict(checks=1600, budget_s=50),
           thorough=dict(checks=6000, shards=16, budget_s=300),
           level_text="Generated source combinations {flag, env (struct-tag and documented names), shared fallback, file1, file2, default} for every main-config setting with a cmdenv tag or a string/list/map type, with ${VAR} references (set/unset) in scalars, list elements and map values; effective getter values compared with a precedence/expansion model and with a literal single-file twin (same verdict, same getters). Exploration: does not prove absence.",
           level_note="Settings without an exported getter, deprecated settings, zero-valued flags/env vars and references inside flag/env values are out of scope; the relation 'specific env var vs shared flag' is treated as undecided by the statement."),
